@@ -23,7 +23,7 @@ TRUSTED_EXTRA = ["Python implementation of the WGSL layout rules (lib/structgen.
 
 
 def cases(rng, tier):
-    return structcases.cases(rng, tier)
+    return structcases.cases(rng, tier, result_as_vertex_input=True)
 
 
 ELIGIBLE = lambda c: not (c["opts"].get("mv") == "Nalgebra" and c["opts"].get("encase"))
